@@ -21,6 +21,7 @@
 (*   [e|->"Opened",c,ok]  [e|->"Start",r,c]  [e|->"Done",r,c,k]            *)
 (*   [e|->"TimedOut",r]  [e|->"Deliver",r,k]  k in ok|err|timeout|maxw|    *)
 (*   closed|other   [e|->"Die",c]  [e|->"Closed",c]  [e|->"PoolClose"]     *)
+(*   [e|->"PoolOpen"] (the owner calls Open() on the pool again)           *)
 (*   [e|->"PState",pst] (the pool's public state was seen to have changed) *)
 (*   [e|->"Q",pst]  (scheduler quiescent)  [e|->"Stop",pst] (quiescent and *)
 (*   every connection has answered everything: traffic has stopped)        *)
@@ -36,12 +37,17 @@
 (* (the pool takes the connection back on a timeout although the           *)
 (* connection is still busy: that is the documented sink-stack semantics,  *)
 (* not judged here).  After the pool has closed (a dead connection was     *)
-(* released, PoolClose, or the pool reports Closed) nothing is required    *)
-(* any more except C07.closeFailsWaiters: the statement only speaks about  *)
-(* pools that are in service.                                              *)
+(* released, PoolClose, or the pool reports Closed) -- and also after its  *)
+(* owner opened it again (PoolOpen) -- only C07.closeFailsWaiters,         *)
+(* C07.exclusive and the in-use form of C07.max are still judged: the      *)
+(* statement makes no exception for closed pools in its first sentence,    *)
+(* the other sentences speak about pools that are in service.              *)
 (*                                                                         *)
 (* Clauses (exactly the sentences of the statement of C07):                *)
-(*  C07.max        Create while max_watermark connections are live.        *)
+(*  C07.max        Create while max_watermark connections are live; Create *)
+(*                 or Start that makes more than max_watermark connections *)
+(*                 work at once (lent or being opened) -- this form also   *)
+(*                 after a close / re-open.                                *)
 (*  C07.exclusive  Start on a connection that is held.                     *)
 (*  C07.queueBound more than max_queue_len requests waiting; a max-waiters *)
 (*                 error that is late (not the immediate outcome of the    *)
@@ -93,6 +99,12 @@ LiveConns(a) == {c \in Conns(a) : a.conn[c] \in {"opening", "open"}}
 \* may, but need not, reuse a connection before it has answered the request that timed out)
 Free(a) == {c \in Conns(a) : a.conn[c] = "open" /\ a.hold[c] = 0 /\ a.late[c] = {}}
 Holder(a, r) == {c \in Conns(a) : a.hold[c] = r}
+\* connections working for the pool's callers right now: lent to a request, or being opened.
+\* They all exist, so more than max_watermark of them is more than max_watermark in existence --
+\* whatever happened to the pool before (closed, closed and opened again).  (Connections that a
+\* closed pool gave up without closing them are deliberately not counted: the statement does not
+\* say what a closed pool does with the connections it had.)
+InUse(a) == {c \in Conns(a) : a.hold[c] # 0 \/ a.conn[c] = "opening"}
 
 \* connection c is given back by its holder; if it is dead the pool must close
 Rel(a, c) ==
@@ -112,8 +124,9 @@ StartChk(a, e) ==
   IF e.c \notin Conns(a) \/ e.r \notin Reqs(a) THEN "harness.known"
   ELSE LET q == a.req[e.r] IN
     IF e.r \in a.must THEN "C07.closeFailsWaiters"     \* started although failed by the close
+    ELSE IF a.hold[e.c] # 0 THEN "C07.exclusive"        \* also for a pool that has been closed
+    ELSE IF Cardinality(InUse(a) \ {e.c}) + 1 > a.max THEN "C07.max"   \* idem
     ELSE IF a.pclosed THEN "ok"
-    ELSE IF a.hold[e.c] # 0 THEN "C07.exclusive"
     ELSE IF q.st = "pend"
          THEN IF q.own = 0 /\ \E w \in LiveWaiting(a) \ {e.r} : a.req[w].arr < q.arr
               THEN "C07.fifo" ELSE "ok"
@@ -154,7 +167,7 @@ ProbeChk(a, e) ==
   ELSE "ok"
 
 Known == {"Arrive", "Create", "Opened", "Start", "Done", "TimedOut", "Deliver", "Die", "Closed",
-          "PoolClose", "PState", "Q", "Stop", "Probe"}
+          "PoolClose", "PoolOpen", "PState", "Q", "Stop", "Probe"}
 
 Chk(a, e) ==
   IF e.e \notin Known THEN "harness.unknownEvent"
@@ -162,13 +175,14 @@ Chk(a, e) ==
   ELSE CASE e.e = "Arrive" -> IF e.r \in Reqs(a) THEN "harness.freshReq" ELSE "ok"
     [] e.e = "Create" -> IF e.c \in Conns(a) THEN "harness.freshConn"
                          ELSE IF ~a.pclosed /\ Cardinality(LiveConns(a)) + 1 > a.max THEN "C07.max"
+                         ELSE IF Cardinality(InUse(a)) + 1 > a.max THEN "C07.max"
                          ELSE "ok"
     [] e.e \in {"Opened", "Die", "Closed"} -> IF e.c \notin Conns(a) THEN "harness.known" ELSE "ok"
     [] e.e = "Start" -> StartChk(a, e)
     [] e.e = "Done" -> IF e.c \notin Conns(a) \/ e.r \notin Reqs(a) THEN "harness.known" ELSE "ok"
     [] e.e = "TimedOut" -> IF e.r \notin Reqs(a) THEN "harness.known" ELSE "ok"
     [] e.e = "Deliver" -> DeliverChk(a, e)
-    [] e.e \in {"PoolClose", "PState"} -> "ok"
+    [] e.e \in {"PoolClose", "PoolOpen", "PState"} -> "ok"
     [] e.e = "Q" -> QChk(a, e)
     [] e.e = "Stop" -> StopChk(a, e)
     [] e.e = "Probe" -> ProbeChk(a, e)
@@ -211,6 +225,7 @@ Upd(a, e) ==
     [] e.e = "Die" -> [b EXCEPT !.conn[e.c] = IF @ \in {"opening", "open"} THEN "dead" ELSE @]
     [] e.e = "Closed" -> [b EXCEPT !.conn[e.c] = "closed"]
     [] e.e = "PoolClose" -> [b EXCEPT !.pclosed = TRUE]
+    [] e.e = "PoolOpen" -> [b EXCEPT !.expc = FALSE]    \* from now on the pool may report Open again
     [] e.e \in {"Q", "Stop", "PState"} -> [b EXCEPT !.pclosed = @ \/ e.pst = "closed"]
     [] e.e = "Probe" -> b
 
